@@ -1,4 +1,4 @@
-import UmProofs.BrokerFailoverLift
+import UmProofs.BrokerFailoverLimitView
 import UmProofs.BrokerFailoverAlloc
 /-!
 # C06 — Failover promotes the replica without changing slot ownership
@@ -463,6 +463,51 @@ theorem C06_failover {s : Store} {p choice name : String} {pr : ProxyRes} {cl : 
         obtain ⟨r1, r2⟩ := no_master_on hnd1 hf1 hk1 hr1 n1 hmem hp1
         exact ⟨by rw [a10, r1], by rw [a9, r2]⟩
 
+/-- **(a), (b), (d) for the views served under a migration limit.** `limit_migration` (any `limit`)
+reads neither role positions nor epochs. If it succeeds on the stored cluster (`lc`, view `v`) it
+succeeds on the cluster after `takeover_master` (`lc'`, view `v'`): `lc'` is `lc` with the entries mapped
+by `tkMap` (= `tkEntry pos e`, identity for a repeat call) and the role of chunk `k` flipped; the nodes
+relate exactly as in (a); no node served by `p` is master; and every entry of `lc` is served, before
+and after, with the descriptor that the stored entry of the same meta gets in the unlimited view —
+so the statements of (d) hold for the limited views verbatim. No invariant hypothesis. -/
+theorem C06_limited {s : Store} {name p : String} {cl : Cluster} (hcl : s.findCluster name = some cl)
+    {k h : Nat} {c : Chunk} (hf : failedAt p cl.chunks = some (k, h)) (hk : cl.chunks[k]? = some c)
+    (limit : Nat) {lc : Cluster} {v : VCluster}
+    (hl : limitMigration cl limit = R.ok lc) (hv : clusterStoreToCluster lc = R.ok v) :
+    ∃ cl' lc' v', (takeoverMaster s name p).1.findCluster name = some cl' ∧
+      limitMigration cl' limit = R.ok lc' ∧ clusterStoreToCluster lc' = R.ok v' ∧
+      v'.nodes.length = v.nodes.length ∧ lc.chunks.length = cl.chunks.length ∧
+      (∀ i j, i < cl.chunks.length → j < 4 →
+        ∃ n np n', vnode v i j = some n ∧ vnode v i (peerIdx j) = some np ∧ vnode v' i j = some n' ∧
+          n'.address = n.address ∧ n'.proxy = n.proxy ∧ n'.peers = n.peers ∧
+          n'.replica = (if i = k then decide (j / 2 = h) else n.replica) ∧
+          n'.slots.map srKey =
+            if i = k then (if j / 2 = h then [] else n.slots.map srKey ++ np.slots.map srKey)
+            else n.slots.map srKey) ∧
+      (cl.proxyAddrs.Nodup → ∀ n ∈ v'.nodes, n.proxy = p → n.replica = true ∧ n.slots = []) ∧
+      (∀ (i : Nat) (x : Chunk), lc.chunks[i]? = some x → ∃ x' : Chunk, lc'.chunks[i]? = some x' ∧
+        x'.stable0 = x.stable0 ∧ x'.stable1 = x.stable1 ∧
+        x'.mig0 = x.mig0.map (tkMap h (s.globalEpoch + 1) c) ∧ x'.mig1 = x.mig1.map (tkMap h (s.globalEpoch + 1) c)) ∧
+      (∀ x ∈ lc.migs, ∃ m ∈ cl.migs, x.mm = m.mm ∧ specInfo x lc.chunks = specInfo m cl.chunks ∧
+        specInfo (tkMap h (s.globalEpoch + 1) c x) lc'.chunks = specInfo (tkMap h (s.globalEpoch + 1) c m) cl'.chunks) := by
+  obtain ⟨-, -, -, -, -, hfind⟩ := takeoverMaster_find hcl hf hk
+  obtain ⟨lc', hl', hrel⟩ :=
+    limitMigration_rel (tkMap_invisible h (s.globalEpoch + 1) c) limit (afterTakeover_rel (s.globalEpoch + 1) hk) hl
+  obtain ⟨hok, rfl⟩ := clusterStoreToCluster_eq_ok hv
+  have hok' := clusterOk_relC (tkMap_invisible h (s.globalEpoch + 1) c) hrel hok
+  obtain ⟨fr, -⟩ := limitMigration_frame limit hl
+  refine ⟨_, lc', specView lc', hfind, hl', by rw [clusterStoreToCluster_eq, hok']; rfl,
+    by rw [specView_length, specView_length, hrel.length_eq], fr.length_eq, ?_, ?_, ?_, ?_⟩
+  · intro i j hi hj
+    have hi' : i < lc.chunks.length := by rw [fr.length_eq]; exact hi
+    exact limited_owner (s.globalEpoch + 1) limit hf hk hl hl' hrel i j hj (List.getElem?_eq_getElem hi')
+  · intro hnd
+    exact limited_no_master (s.globalEpoch + 1) limit hnd hf hk hl'
+  · intro i x hx
+    obtain ⟨y, hy, a, b, c', d⟩ := hrel.get hx
+    exact ⟨y, hy, a, b, c', d⟩
+  · exact limited_tags (s.globalEpoch + 1) limit hl hl'
+
 /-! ## lifted to every reachable state
 
 The theorems above hold for every store satisfying their explicit hypotheses. Here the hypotheses
@@ -719,6 +764,50 @@ example : exKeys exF2 "k" = some
       [[⟨8, "a:1", "a:11", "c:1", "c:11"⟩, ⟨9, "e:1", "e:11", "d:1", "d:11"⟩],
        [⟨8, "a:1", "a:11", "c:1", "c:11"⟩, ⟨9, "e:1", "e:11", "d:1", "d:11"⟩]] := by
   refine ⟨?_, ?_, ?_, ?_⟩ <;> decide +kernel
+
+/-- keys held by the eight nodes in the view served under a migration limit -/
+def exKeysL (s : Store) (name : String) (limit : Nat) : Option (List (List Key)) :=
+  match s.findCluster name with
+  | none => none
+  | some cl =>
+    match limitMigration cl limit with
+    | .ok lc =>
+      match clusterStoreToCluster lc with
+      | .ok v => some ((List.range 8).map fun t => keysAt v (t / 4) (t % 4))
+      | _ => none
+    | _ => none
+
+/-- `C06_limited` on `exS` with `migration_limit = 2` (both migrations are rebuilt by `limit_migration`; a limit
+of 1 defers the second one, whose `merge_another` sorts with `List.mergeSort`, which the kernel cannot
+evaluate): failing `a:1` moves node 0's ranges to node 3, failing `b:1` moves node 2's to node 1 -/
+example : exKeysL exS "k" 2 = some
+      [[([(0, 4095)], 0), ([(4096, 8191)], 1)], [], [([(8192, 12287)], 0), ([(12288, 16383)], 1)], [],
+       [([(4096, 8191)], 2)], [], [([(12288, 16383)], 2)], []] ∧
+    exKeysL (step exS (.failover "a:1" "e:1")) "k" 2 = some
+      [[], [], [([(8192, 12287)], 0), ([(12288, 16383)], 1)], [([(0, 4095)], 0), ([(4096, 8191)], 1)],
+       [([(4096, 8191)], 2)], [], [([(12288, 16383)], 2)], []] ∧
+    exKeysL (step exS (.failover "b:1" "e:1")) "k" 2 = some
+      [[([(0, 4095)], 0), ([(4096, 8191)], 1)], [([(8192, 12287)], 0), ([(12288, 16383)], 1)], [], [],
+       [([(4096, 8191)], 2)], [], [([(12288, 16383)], 2)], []] := by
+  refine ⟨?_, ?_, ?_⟩ <;> decide +kernel
+
+example : ∃ cl' lc' v', (takeoverMaster exS "k" "a:1").1.findCluster "k" = some cl' ∧
+    limitMigration cl' 2 = R.ok lc' ∧ clusterStoreToCluster lc' = R.ok v' := by
+  obtain ⟨-, -, cl, pa, pd, c0, c1, hcl, hpos, -, -, -, -, -, -, hfa, -, hk0, -⟩ := ex_hyps
+  have h1 : (exS.findCluster "k").map (fun cl => match limitMigration cl 2 with
+      | .ok lc => clusterOk lc | _ => false) = some true := by decide +kernel
+  rw [hcl] at h1
+  simp only [Option.map_some, Option.some.injEq] at h1
+  cases hl : limitMigration cl 2 with
+  | ok lc =>
+    rw [hl] at h1
+    simp only [] at h1
+    obtain ⟨cl', lc', v', a1, a2, a3, -⟩ :=
+      C06_limited hcl hfa hk0 2 hl (by rw [clusterStoreToCluster_eq, h1]; rfl)
+    exact ⟨cl', lc', v', a1, a2, a3⟩
+  | err e => rw [hl] at h1; simp at h1
+  | panic w => rw [hl] at h1; simp at h1
+  | badChoice w => rw [hl] at h1; simp at h1
 
 /-- (c) on a concrete view -/
 example : ∃ v, (exS.findCluster "k").map clusterOk = some true ∧ v = (exS.findCluster "k").map specView ∧
